@@ -65,6 +65,8 @@ def new_context(values: dict, allow_python: int = 0):
 
 
 def expand(text: str, ctx, lib: str = None) -> str:
+    # harness hygiene (see c17.run_case): drop the frames retained by the singleton exception
+    simpleTALES.PATHNOTFOUNDEXCEPTION.__traceback__ = None
     if lib is not None:
         ctx.addGlobal("lib", simpleTAL.compileHTMLTemplate(lib))
     tpl = simpleTAL.compileHTMLTemplate(text)
@@ -283,6 +285,7 @@ def restore_case(chk: Check, i: int) -> None:
     rng = chk.subrng("restore", i)
     schema = talref.Schema(rng)
     gen, lib, page, cmds = gen_templates(rng, structure=True)
+    simpleTALES.PATHNOTFOUNDEXCEPTION.__traceback__ = None
     ctx = new_context(schema.build())
     ctx.setLocal("uloc", "user local")
     detail = {"sub": "restore", "case": i, "case_seed": chk.seed, "lib": lib, "page": page, "context": schema.vals}
